@@ -28,7 +28,27 @@ def shards(tier, seed):
     return [dict(i=i, n=n) for i in range(n)]
 
 
-def check_case(sink, c, o):  # noqa: C901
+class _Abort(Exception):
+    pass
+
+
+def _flatten(sink, ident, what, tree, kw):
+    """tree_flatten of a tree the property says can be flattened: an exception is a verdict about optree, not about the harness."""
+    try:
+        return optree.tree_flatten(tree, **kw)
+    except Exception as e:  # noqa: BLE001
+        sink.violation(f'flatten-raises/{what}/{type(e).__name__}', 'every pytree (also a rebuilt one, one holding the same object at several positions) can be flattened', ident, repr(e)[:300])
+        raise _Abort from None
+
+
+def check_case(sink, c, o):
+    try:
+        _check_case(sink, c, o)
+    except _Abort:
+        pass
+
+
+def _check_case(sink, c, o):  # noqa: C901
     ident = dict(c.ident(), opt=repr(o))
     kw = o.kw()
     with o.ctx():
@@ -40,7 +60,7 @@ def check_case(sink, c, o):  # noqa: C901
             # replacement by arbitrary leaves is something partial can honour.
             sink.count('skipped:predicate-claims-partial-args')
             return
-        leaves, spec = optree.tree_flatten(c.tree, **kw)
+        leaves, spec = _flatten(sink, ident, 'tree', c.tree, kw)
         # 1. rebuild
         try:
             rebuilt = spec.unflatten(leaves)
@@ -66,7 +86,7 @@ def check_case(sink, c, o):  # noqa: C901
         if c.index % 6 == 0 and not isinstance(c.tree, U.Leaf):
             twice = (c.tree, c.tree, (c.tree,))
             ref_t = refmodel.flatten(twice, o.ref())
-            lv_t, sp_t = optree.tree_flatten(twice, **kw)
+            lv_t, sp_t = _flatten(sink, ident, 'shared-container', twice, kw)
             ok_t = len(lv_t) == len(ref_t.leaves) and all(a is b for a, b in zip(lv_t, ref_t.leaves))
             d = same.diff(twice, sp_t.unflatten(lv_t), leaf_ids={id(x) for x in ref_t.leaves}) if ok_t else 'leaves of a tree that contains one container several times differ from the reference'
             sink.check(d is None, 'roundtrip/shared-container', 'a container object occurring twice in the tree is flattened twice and rebuilt at both places', ident, d)
@@ -82,7 +102,7 @@ def check_case(sink, c, o):  # noqa: C901
             twin, _ = gen.materialize(d_tw, rng_tw)
             ref_tw = refmodel.flatten(twin, o.ref())
             if not ({id(x) for x in ref_tw.leaves} & same.partial_children_ids(twin)):
-                lv_tw, sp_tw = optree.tree_flatten(twin, **kw)
+                lv_tw, sp_tw = _flatten(sink, ident, 'equal-twin', twin, kw)
                 ok_tw = len(lv_tw) == len(ref_tw.leaves) and all(a is b for a, b in zip(lv_tw, ref_tw.leaves))
                 d = same.diff(twin, sp_tw.unflatten(lv_tw), leaf_ids={id(x) for x in ref_tw.leaves}) if ok_tw else 'leaves of the twin differ from the reference'
                 sink.check(d is None, 'roundtrip/equal-twin-afterwards', 'a tree with an equal treespec but another dict insertion order, flattened right after, round-trips to ITS key order', ident, d)
@@ -91,7 +111,7 @@ def check_case(sink, c, o):  # noqa: C901
                 sink.check(d is None, 'identity-map/equal-twin-afterwards', 'tree_map(identity) of the twin is the twin', ident, d)
                 sink.count('equal-twins')
         # 2. re-flatten
-        leaves2, spec2 = optree.tree_flatten(rebuilt, **kw)
+        leaves2, spec2 = _flatten(sink, ident, 'rebuilt-tree', rebuilt, kw)
         ok = len(leaves2) == len(leaves) and all(a is b for a, b in zip(leaves, leaves2))
         sink.check(ok, 'reflatten/leaves', 're-flattening yields the identical leaves', ident, lambda: (leaves, leaves2))
         sink.check(spec2 == spec and not (spec2 != spec), 'reflatten/spec-eq', 're-flattening yields an equal treespec', ident, lambda: (str(spec), str(spec2)))
@@ -110,7 +130,7 @@ def check_case(sink, c, o):  # noqa: C901
             return
         fresh = [U.Leaf(('r', i)) for i in range(n)]
         rebuilt3 = spec.unflatten(fresh)
-        leaves3, spec3 = optree.tree_flatten(rebuilt3, **kw)
+        leaves3, spec3 = _flatten(sink, ident, 'tree-of-replacement-leaves', rebuilt3, kw)
         ok = len(leaves3) == n and all(a is b for a, b in zip(fresh, leaves3))
         sink.check(ok, 'replace/leaves', 'flatten(unflatten(spec, xs)) returns exactly xs', ident, lambda: (fresh, leaves3))
         sink.check(spec3 == spec, 'replace/spec', 'flatten(unflatten(spec, xs)) has an equal treespec', ident, lambda: (str(spec), str(spec3)))
